@@ -27,6 +27,9 @@ pub enum CollState {
     ReduceOnly,
     Isolated,
     Stale,
+    /// the collateral bank allows prices no older than 30 s (below the program's own 60 s default for Pyth) and the
+    /// price is 45 s old
+    StaleShortMaxAge,
     InitLimit,
     /// collateral-value cap active on a bank whose asset share value is 1.25
     InitLimitShareValue,
@@ -113,6 +116,9 @@ pub fn build(c: &Cfg, tag: &str) -> Option<Built> {
     let mut ccfg = BankCfg::default();
     ccfg.asset_weight_init = I80F48::from_num(c.w_init);
     ccfg.asset_weight_maint = I80F48::from_num(1.0);
+    if c.state == CollState::StaleShortMaxAge {
+        ccfg.oracle_max_age = 30;
+    }
     if c.state == CollState::Isolated {
         ccfg.asset_weight_init = I80F48::ZERO;
         ccfg.asset_weight_maint = I80F48::ZERO;
@@ -259,6 +265,13 @@ pub fn build(c: &Cfg, tag: &str) -> Option<Built> {
             let off = 8 + 32 + 1 + 32 + 8 + 8 + 4;
             let t = 1_700_000_000i64 - 100_000;
             a.data[off..off + 8].copy_from_slice(&t.to_le_bytes());
+        }
+        CollState::StaleShortMaxAge => {
+            let o = w.banks[ci].oracle.unwrap();
+            let now = s.now;
+            let a = s.get_mut(&o).unwrap();
+            let off = 8 + 32 + 1 + 32 + 8 + 8 + 4;
+            a.data[off..off + 8].copy_from_slice(&(now - 45).to_le_bytes());
         }
         CollState::InitLimitShareValue => {
             world::edit_bank(&mut s, &w.banks[ci].key, |b| b.asset_share_value = (I80F48::from(b.asset_share_value) * I80F48::from_num(1.25)).into());
@@ -499,7 +512,7 @@ fn run_cfg(c: &Cfg, idx: usize) -> CfgResult {
         class.push_str(&format!(":limited_by_{}", crate::svm::err_name(reject_code)));
     }
     // collateral that cannot count must leave the borrow boundary exactly where it is without it
-    if !c.withdraw && !c.no_main && c.second && !c.many && matches!(c.state, CollState::Stale | CollState::ReduceOnly | CollState::Isolated) {
+    if !c.withdraw && !c.no_main && c.second && !c.many && matches!(c.state, CollState::Stale | CollState::StaleShortMaxAge | CollState::ReduceOnly | CollState::Isolated) {
         let mut twin = c.clone();
         twin.no_main = true;
         let t = run_cfg(&twin, idx + 64);
@@ -549,7 +562,7 @@ pub fn configs(tier: Tier) -> Vec<Cfg> {
         for &(price_e8, ema) in &[(100_000_000i64, (1i64, 1i64)), (10_000_000_000, (1, 2)), (10_000_000_000, (11, 10))] {
             for &conf_pp in &[0u64, 472] {
                 for withdraw in [false, true] {
-                    for &state in &[CollState::InitLimitShareValue, CollState::Staked] {
+                    for &state in &[CollState::InitLimitShareValue, CollState::Staked, CollState::StaleShortMaxAge] {
                         v.push(Cfg { w_init, price_e8, ema, conf_pp, state, second: false, liab_w: 1.25, liab_conf_pp: 0, emode: Emode::Off, withdraw, many: false, no_main: false });
                     }
                     if !withdraw {
